@@ -276,3 +276,15 @@ def py_modes_redirect(d):
             return (it["mode"].lower() if it else "disabled") != "disabled"
         return [["wireserver", m("wireserver")], ["imds", m("imds")], ["hostga", m("wireserver")]]
     return [["wireserver", True], ["imds", True], ["hostga", True]]   # 1.0: enforce / audit, never disabled
+
+
+def pinned_consts():
+    """key-keeper constants gen_consts could not locate in the source (pinned defaults in use)"""
+    out = []
+    try:
+        for line in open(os.path.join(vplib.COQ, "Generated", "Consts.v")):
+            if line.startswith("Definition kk_") and "PINNED" in line:
+                out.append(line.split()[1])
+    except OSError:
+        pass
+    return out
